@@ -131,7 +131,8 @@ def build_ellipse_model(shape, isolist, fill=0.0, high_harmonics=False):
             i = int(x)
             j = int(y)
 
-            if i > 0 and i < shape[1] - 1 and j > 0 and j < shape[0] - 1:
+            if (x >= 0.0 and i < shape[1] - 1
+                    and y >= 0.0 and j < shape[0] - 1):
                 # get fractional deviations relative to target array
                 fx = x - float(i)
                 fy = y - float(j)
@@ -149,12 +150,12 @@ def build_ellipse_model(shape, isolist, fill=0.0, high_harmonics=False):
                 weight[j + 1, i] += fy * (1.0 - fx)
                 weight[j + 1, i + 1] += fy * fx
 
-                # step towards next pixel on ellipse
-                phi = max((phi + 0.75 / r), geometry._phi_min)
-                r = max(geometry.radius(phi), 0.5)
-            # if outside image boundaries, ignore.
-            else:
-                break
+            # (a point outside the image boundaries is ignored; the rest
+            # of the ellipse is still painted)
+
+            # step towards next pixel on ellipse
+            phi = max((phi + 0.75 / r), geometry._phi_min)
+            r = max(geometry.radius(phi), 0.5)
 
     # zero weight values must be set to 1.0
     weight[np.where(weight <= 0.0)] = 1.0
